@@ -215,15 +215,10 @@ type graph struct {
 
 func (g *graph) ID(ctx context.Context) string { return g.g.ID(ctx) }
 
+// tsKey identifies a batch by its size only: CONSTRUCT reifies fresh blank nodes on every execution, so the
+// text of the triples is not stable between the fault-free run and the faulted run.
 func tsKey(ts []*triple.Triple) string {
-	k := fmt.Sprintf("%d:", len(ts))
-	for i, t := range ts {
-		if i >= 4 {
-			break
-		}
-		k += t.String() + ";"
-	}
-	return k
+	return fmt.Sprintf("%d triples", len(ts))
 }
 
 func (g *graph) AddTriples(ctx context.Context, ts []*triple.Triple) error {
